@@ -113,6 +113,17 @@ FinalForEver == [][Finalized => meta' = meta]_vars
 \* the "finalized but accepting" fatal error is unreachable (time only moves forward)
 NeverDead == pc # "dead"
 
+\* Liveness: once the read-only date has passed, a process that is eventually left alone
+\* (crashes are bounded) records the final tree head.  Fairness on every step of the code;
+\* none on Crash and Date (the environment).
+Fair == /\ WF_vars(Start) /\ WF_vars(MetaActive) /\ WF_vars(StartSunset) /\ WF_vars(TickRound)
+        /\ WF_vars(Tick) /\ WF_vars(Finalize) /\ WF_vars(Publish) /\ WF_vars(\E k \in 0..1 : Cas(k))
+FairSpec == Spec /\ Fair
+EventuallyFinal == past ~> Finalized
+\* ... and, unless the last round was cut between its compare-and-swap and its checkpoint upload,
+\* the served checkpoint is the final tree head (the refuted FinalIsPublished, conditioned)
+PubCaughtUp == [](Finalized /\ pub = lock => [](pub = lock))
+
 \* What cmd/skylight's health check (Health.tla, lfinal = "match") needs in order to be
 \* green for a read-only log: final tree head = served checkpoint.  NOT an invariant of
 \* the design: a crash between the last round's compare-and-swap and its checkpoint
